@@ -154,6 +154,15 @@ class Hier:
             self._new_case(d, lit % k)
             self._new_case(d, decoy % k)
             s['cases'].insert(rng.below(len(s['cases']) + 1), "'%s'" % (lit % k))
+        if rng.chance(0.25):
+            # a glob whose matches span several directories: the matches are sorted BY PATH, and the file names alone are
+            # ordered differently from the paths (grp_a/z, grp_a/m, grp_b/a ...)
+            k = len(self.suites)
+            layout = rng.choice([[('a', 'z'), ('a', 'm'), ('b', 'a'), ('b', 'n')], [('x', 'b'), ('y', 'a')],
+                                 [('p', 'c'), ('q', 'b'), ('r', 'a')]])
+            for (g, n) in layout:
+                self._new_case(d / ('grp%d_%s' % (k, g)), '%s.case' % n)
+            s['cases'].insert(rng.below(len(s['cases']) + 1), 'grp%d_?/*.case' % k)
         # sub suites
         if depth < 2:
             k = rng.randint(0, 3 if depth == 0 else 2)
